@@ -94,6 +94,25 @@ Proof.
   rewrite Hm in Hc. discriminate.
 Qed.
 
+(* the three role updates of update_role_assignment amount to replacing the rule set *)
+Lemma update_role_assignment_eq : forall t cur new,
+  update_role_assignment t cur new = if self_can_update t then Some new else None.
+Proof.
+  intros t cur new. unfold update_role_assignment, self_can_update, self_updates. cbn [forallb all_roles].
+  destruct (lookup (role_name Primary) (t_updaters t)) as [u1|];
+    destruct (lookup (role_name Recovery) (t_updaters t)) as [u2|];
+    destruct (lookup (role_name Confirmation) (t_updaters t)) as [u3|];
+    try destruct (mem_str (t_self t) u1); try destruct (mem_str (t_self t) u2); try destruct (mem_str (t_self t) u3);
+    cbn; try reflexivity; destruct cur, new; reflexivity.
+Qed.
+Lemma confirm_rules_eq : forall t c rs,
+  confirm_rules t c rs = if self_can_update t then (set_roles (set_st c st_default) rs, Ok) else (c, Fail EUnauthorized).
+Proof. intros. unfold confirm_rules. rewrite update_role_assignment_eq. destruct (self_can_update t); reflexivity. Qed.
+Lemma confirm_withdraw_eq : forall t c,
+  confirm_withdraw t c = if self_can_update t then (set_badge (set_roles (set_st c st_default) deny_all_rules) false, Ok)
+                         else (c, Fail EUnauthorized).
+Proof. intros. unfold confirm_withdraw. rewrite update_role_assignment_eq. destruct (self_can_update t); reflexivity. Qed.
+
 (* ------------------------------------------------------------------------------------------ *)
 (* history predicates *)
 
@@ -334,7 +353,7 @@ Proof.
               Inv (hist ++ [x]) (fst (confirm_rules t c (p_rules p))) /\
               (changed c (fst (confirm_rules t c (p_rules p))) ->
                Justified t hist c {| e_who := who; e_now := now; e_meth := MQuickRec pr q |} (fst (confirm_rules t c (p_rules p))))).
-    { intros p Hs He. apply proposal_eqb_eq in He. subst q. unfold confirm_rules.
+    { intros p Hs He. apply proposal_eqb_eq in He. subst q. rewrite confirm_rules_eq.
       destruct (self_can_update t); cbn.
       - split; [apply Inv_default; reflexivity|]. intros _.
         eapply J_quick_rec with (pr := pr) (p := p) (r := r); cbn; auto.
@@ -372,7 +391,7 @@ Proof.
               Inv (hist ++ [x]) (fst (confirm_withdraw t c)) /\
               (changed c (fst (confirm_withdraw t c)) ->
                Justified t hist c {| e_who := who; e_now := now; e_meth := MQuickWd pr |} (fst (confirm_withdraw t c)))).
-    { intros Hs. unfold confirm_withdraw. destruct (self_can_update t); cbn.
+    { intros Hs. rewrite confirm_withdraw_eq. destruct (self_can_update t); cbn.
       - split; [apply Inv_default; reflexivity|]. intros _.
         eapply J_quick_wd with (pr := pr) (r := r); cbn; auto.
         destruct HI as [_ I2 _]. apply I2. exact Hs.
@@ -397,7 +416,7 @@ Proof.
       [|split; [exact Hsame|intro H; exfalso; revert H; apply Hnochange; auto]].
     destruct (time_elapsed now a) eqn:Et; cbn;
       [|split; [exact Hsame|intro H; exfalso; revert H; apply Hnochange; auto]].
-    apply proposal_eqb_eq in Ep. subst q. unfold confirm_rules. destruct (self_can_update t); cbn.
+    apply proposal_eqb_eq in Ep. subst q. rewrite confirm_rules_eq. destruct (self_can_update t); cbn.
     + split; [apply Inv_default; reflexivity|]. intros _.
       eapply J_timed with (p := p) (after := a); cbn; auto.
       destruct HI as [_ _ I3]. apply I3. exact Es.
@@ -611,9 +630,9 @@ Proof.
     try (destruct (existsb (N.eqb _) (c_minted c) && negb _); cbn; try reflexivity; intros H; exfalso; apply H; reflexivity);
     (destruct (lookup _ (t_methods t)) as [acc|]; cbn; [|reflexivity]);
     (destruct (admitted acc (c_roles c) who); cbn; [|reflexivity]);
-    unfold body, confirm_rules, confirm_withdraw;
+    unfold body; rewrite ?confirm_rules_eq, ?confirm_withdraw_eq;
     repeat match goal with
-           | |- context [match ?x with _ => _ end] => destruct x; cbn
+           | |- context [match ?x with _ => _ end] => destruct x; cbn; rewrite ?confirm_rules_eq, ?confirm_withdraw_eq
            end;
     try reflexivity; intros H; exfalso; apply H; reflexivity.
 Qed.
@@ -624,7 +643,7 @@ Arguments timer_running : simpl never.
 
 Ltac destruct_scrutinees :=
   repeat match goal with
-         | |- context [match ?x with _ => _ end] => destruct x eqn:?; cbn [fst snd]
+         | |- context [match ?x with _ => _ end] => destruct x eqn:?; cbn [fst snd]; rewrite ?confirm_rules_eq, ?confirm_withdraw_eq
          end.
 
 Lemma stored_none_kept : forall t pr c who now m,
@@ -639,7 +658,7 @@ Proof.
     try (destruct (existsb (N.eqb _) (c_minted c) && negb _); cbn [fst snd]; exact Hs);
     (destruct (lookup _ (t_methods t)) as [acc|]; cbn [fst snd]; [|exact Hs]);
     (destruct (admitted acc (c_roles c) who); cbn [fst snd]; [|exact Hs]);
-    unfold body, confirm_rules, confirm_withdraw;
+    unfold body; rewrite ?confirm_rules_eq, ?confirm_withdraw_eq;
     destruct_scrutinees;
     try exact Hs; try reflexivity;
     unfold stored in *; cbn in *;
@@ -674,7 +693,7 @@ Proof.
     try (destruct (existsb (N.eqb _) (c_minted c) && negb _); cbn [fst snd]; exact Hs);
     (destruct (lookup _ (t_methods t)) as [acc|]; cbn [fst snd]; [|exact Hs]);
     (destruct (admitted acc (c_roles c) who); cbn [fst snd]; [|exact Hs]);
-    unfold body, confirm_rules, confirm_withdraw;
+    unfold body; rewrite ?confirm_rules_eq, ?confirm_withdraw_eq;
     destruct_scrutinees;
     try exact Hs; try reflexivity;
     unfold stored_wd in *; cbn in *; congruence.
@@ -704,7 +723,7 @@ Proof.
     try (destruct (existsb (N.eqb _) (c_minted c) && negb _); cbn [fst snd]; exact Hs);
     (destruct (lookup _ (t_methods t)) as [acc|]; cbn [fst snd]; [|exact Hs]);
     (destruct (admitted acc (c_roles c) who); cbn [fst snd]; [|exact Hs]);
-    unfold body, confirm_rules, confirm_withdraw;
+    unfold body; rewrite ?confirm_rules_eq, ?confirm_withdraw_eq;
     destruct_scrutinees;
     try exact Hs; try reflexivity;
     unfold timer_running in *; cbn in *;
@@ -841,9 +860,9 @@ Proof.
     try (destruct (existsb (N.eqb _) (c_minted c) && negb _); cbn [fst snd]; reflexivity);
     (destruct (lookup _ (t_methods t)) as [acc|]; cbn [fst snd]; [|reflexivity]);
     (destruct (admitted acc (c_roles c) who); cbn [fst snd]; [|reflexivity]);
-    unfold body, confirm_rules, confirm_withdraw;
+    unfold body; rewrite ?confirm_rules_eq, ?confirm_withdraw_eq;
     repeat match goal with
-           | |- context [match ?x with _ => _ end] => destruct x eqn:?; cbn [fst snd]
+           | |- context [match ?x with _ => _ end] => destruct x eqn:?; cbn [fst snd]; rewrite ?confirm_rules_eq, ?confirm_withdraw_eq
            end;
     cbn; congruence.
 Qed.
@@ -865,4 +884,36 @@ Proof.
   intros n0 d now Hlo Hh He. unfold Horizon in Hh.
   replace (n0 * 60 + Z.of_N d * 60) with ((n0 + Z.of_N d) * 60) in He by ring.
   apply time_elapsed_exact in He; [exact He|]. split; [exact Hlo|lia].
+Qed.
+
+(* ------------------------------------------------------------------------------------------ *)
+(* the role assignment after any call: the stored proposal's rule set after a committed recovery
+   confirmation (quick or timed), deny-all after a committed badge withdrawal, otherwise untouched *)
+Definition out_ok (o : outcome) : bool := match o with Ok => true | _ => false end.
+Definition expected_roles (c : controller) (m : meth) : ruleset :=
+  match m with
+  | MQuickRec pr _ => match stored pr (c_st c) with Some p => p_rules p | None => c_roles c end
+  | MTimedConfirm _ => match stored PRecovery (c_st c) with Some p => p_rules p | None => c_roles c end
+  | MQuickWd _ => deny_all_rules
+  | MSetRoleDirect r x => set_role (c_roles c) r x
+  | _ => c_roles c
+  end.
+Theorem roles_after_step : forall t c who now m,
+  c_roles (fst (step t c who now m)) =
+  if out_ok (snd (step t c who now m)) then expected_roles c m else c_roles c.
+Proof.
+  intros t c who now m.
+  destruct m as [ | pr p | pr | pr q | pr | q | pr | pr | | | q | ids | amt | amt | amt | r nr | bid ];
+    try destruct pr; unfold step, expected_roles; cbn [meth_name];
+    try (destruct (direct_update_admitted t _ (c_roles c) who); cbn [fst snd out_ok]; reflexivity);
+    try (destruct (existsb (N.eqb _) (c_minted c) && negb _); cbn [fst snd out_ok]; reflexivity);
+    (destruct (lookup _ (t_methods t)) as [acc|]; cbn [fst snd out_ok]; [|reflexivity]);
+    (destruct (admitted acc (c_roles c) who); cbn [fst snd out_ok]; [|reflexivity]);
+    unfold body, stored;
+    repeat match goal with
+           | |- context [match ?x with _ => _ end] => destruct x eqn:?; cbn [fst snd out_ok]; rewrite ?confirm_rules_eq, ?confirm_withdraw_eq
+           end;
+    cbn; try reflexivity;
+    repeat match goal with H : proposal_eqb _ _ = true |- _ => apply proposal_eqb_eq in H; subst end;
+    try congruence; try reflexivity.
 Qed.
